@@ -33,6 +33,8 @@ func c03Profile() Profile {
 		{"path-type", []string{"begin", "prefix", "exact", "Begin"}},
 		{"hsts", []string{"false"}},
 		{"maxconn-server", []string{"10"}},
+		// the Service itself (cluster IP, service port) is the only server
+		{"service-upstream", []string{"true"}},
 	}
 	p.MaxIng = 6
 	return p
@@ -122,7 +124,7 @@ func routingOracle(s *ctlsim.Sim, objs []*world.Obj, params ctlsim.Params, sigPr
 			}
 			return failf(sig, "request %s is sent to backend %q, the documented rules give %v\ntrace:\n  %s", rq, res.Backend, ids, strings.Join(res.Trace, "\n  ")), rs
 		}
-		if match.ID == "_error404" || checkedBackends[match.ID] {
+		if match.ID == "_error404" || checkedBackends[match.ID] || match.Unjudged {
 			continue
 		}
 		checkedBackends[match.ID] = true
